@@ -70,6 +70,14 @@ struct mfn
     }
 };
 
+// The weight of a point is a rounded quantity (a sum over channels, a product over dimensions): the state decides
+// it up to a few units in the last place, not bit for bit.  Channel, bins and coordinates are compared exactly.
+template <typename T>
+static bool close_weight(T a, T b)
+{
+    return vf::same_bits(a, b) || std::fabs(a - b) <= 16 * std::numeric_limits<T>::epsilon() * std::fabs(b);
+}
+
 template <typename T>
 static bool same_vec(std::vector<T> const& a, std::vector<T> const& b)
 {
@@ -194,7 +202,7 @@ static void vegas_case(report& r, std::string const& id, sz iters, int gridkind,
             std::vector<T> u = canon<T>(pos, dims); pos += dims;
             std::vector<sz> bin(dims);
             T const w = hep::vegas_icdf(res[k].pdf(), u, bin);
-            if (!same_vec(u, log[li].point) || bin != log[li].bin || !vf::same_bits(w, log[li].weight))
+            if (!same_vec(u, log[li].point) || bin != log[li].bin || !close_weight(w, log[li].weight))
             {
                 r.violate("points-not-drawn-with-recorded-state", id, id + ": call " + std::to_string(i) + " of iteration " + std::to_string(k) + " saw point ("
                     + vf::join_dec(log[li].point) + ") bins (" + vf::join(log[li].bin) + "), the grid recorded in the result maps the random numbers to (" + vf::join_dec(u) + ") bins (" + vf::join(bin) + ")");
@@ -306,7 +314,7 @@ static void mc_case_with(report& r, std::string const& id, sz iters, int wkind, 
             T tot = T();
             for (sz j = 0; j != 3; ++j) tot += w[j] * dens[j];
             T const weight = jac / tot;
-            if (channel != log[li].channel || !same_vec(coords, log[li].point) || !vf::same_bits(weight, log[li].weight))
+            if (channel != log[li].channel || !same_vec(coords, log[li].point) || !close_weight(weight, log[li].weight))
             {
                 r.violate("points-not-drawn-with-recorded-state", id, id + ": call " + std::to_string(i) + " of iteration " + std::to_string(k) + " saw channel "
                     + std::to_string(log[li].channel) + " coordinate " + vf::join_dec(log[li].point) + " weight " + vf::dec(log[li].weight)
